@@ -40,6 +40,10 @@ type G struct {
 	// Note is free text a harness goroutine may set to describe what it is
 	// about to block on; it is printed in deadlock reports.
 	Note string
+	goid int64
+	// lastStmt is the last instrumented (statement-level or seam) site passed,
+	// as opposed to sites inside shims and pipes.
+	lastStmt int
 }
 
 // PanicEvent is a panic captured in a managed goroutine.
@@ -58,6 +62,9 @@ type BlockedG struct {
 	Site   string // last yield site it passed
 	Parked bool   // parked with a false predicate (waiting for a shim resource)
 	Note   string
+	Wait   string   // runtime wait reason ("sync.Cond.Wait", "chan receive", ...)
+	Func   string   // innermost SDK function on its stack ("" if none)
+	Frames []string // innermost SDK frames
 }
 
 // Outcome is what the scheduler observed.
@@ -82,6 +89,9 @@ type Config struct {
 	MaxSteps int
 	Watchdog time.Duration // fake time without progress that means deadlock
 	Trace    func(line string)
+	// OnPanic is called (on the dying goroutine, after the event was recorded)
+	// when a managed goroutine panics; harnesses use it to model process death.
+	OnPanic func(ev PanicEvent)
 }
 
 // Sim is one simulated execution.
@@ -244,6 +254,9 @@ func ParkUntil(site int, pred func() bool) {
 func (s *Sim) park(g *G, site int, pred func() bool) {
 	s.mu.Lock()
 	g.site = site
+	if site >= 0 && (site < hBase || isHarnessSite(site)) {
+		g.lastStmt = site
+	}
 	g.pred = pred
 	g.parked = true
 	s.newParks = append(s.newParks, g)
@@ -316,15 +329,20 @@ func (s *Sim) spawn(label string, f func()) {
 		n = s.seq
 	}
 	name := fmt.Sprintf("%s%s#%d", pname, label, n)
-	g := &G{Name: name, Kind: kindOf(name), wake: make(chan struct{}), site: siteSpawn}
+	g := &G{Name: name, Kind: kindOf(name), wake: make(chan struct{}), site: siteSpawn, lastStmt: siteSpawn}
 	s.all = append(s.all, g)
 	s.mu.Unlock()
 	raceOn()
 	go func() {
 		raceOff()
 		p := gptr()
+		var id int64
+		if DebugStacks {
+			id = curGoid()
+		}
 		s.mu.Lock()
 		s.byPtr[p] = g
+		g.goid = id
 		s.mu.Unlock()
 		raceOn()
 		defer s.exit(g, p)
@@ -349,6 +367,7 @@ func (s *Sim) exit(g *G, p uintptr) {
 		s.panics = append(s.panics, *ev)
 	}
 	g.dead = true
+	hook := s.cfg.OnPanic
 	delete(s.byPtr, p)
 	for i, x := range s.all {
 		if x == g {
@@ -357,6 +376,9 @@ func (s *Sim) exit(g *G, p uintptr) {
 		}
 	}
 	s.mu.Unlock()
+	if ev != nil && hook != nil {
+		hook(*ev)
+	}
 	select {
 	case s.notify <- struct{}{}:
 	default:
@@ -541,10 +563,7 @@ func (s *Sim) loop(out *Outcome) {
 				}
 				if n == 0 {
 					out.Deadlock = true
-					for _, g := range s.all {
-						out.Blocked = append(out.Blocked, BlockedG{Name: g.Name, Kind: g.Kind, Site: SiteLabel(g.site), Parked: g.parked, Note: g.Note})
-					}
-					sort.Slice(out.Blocked, func(i, j int) bool { return out.Blocked[i].Name < out.Blocked[j].Name })
+					out.Blocked = s.blockedList()
 				}
 				s.mu.Unlock()
 				if out.Deadlock {
@@ -560,9 +579,7 @@ func (s *Sim) loop(out *Outcome) {
 		if s.steps >= s.cfg.MaxSteps {
 			out.Budget = true
 			s.mu.Lock()
-			for _, g := range s.all {
-				out.Blocked = append(out.Blocked, BlockedG{Name: g.Name, Kind: g.Kind, Site: SiteLabel(g.site), Parked: g.parked, Note: g.Note})
-			}
+			out.Blocked = s.blockedList()
 			s.mu.Unlock()
 			return
 		}
@@ -627,3 +644,106 @@ func (g *G) SetHeld(v bool) { g.held = v }
 
 // Site returns the site the goroutine is parked at.
 func (g *G) Site() int { return g.site }
+
+// DebugStacks makes deadlock reports use full goroutine stack dumps (slow).
+var DebugStacks = false
+
+// curGoid parses the current goroutine's id from its stack header (once per goroutine).
+func curGoid() int64 {
+	var buf [64]byte
+	n := runtime.Stack(buf[:], false)
+	// "goroutine 123 ["
+	var id int64
+	for i := len("goroutine "); i < n; i++ {
+		c := buf[i]
+		if c < '0' || c > '9' {
+			break
+		}
+		id = id*10 + int64(c-'0')
+	}
+	return id
+}
+
+// blockedList describes every live managed goroutine using a full stack dump.
+// The caller holds s.mu and every goroutine is blocked.
+//
+//go:norace
+func (s *Sim) blockedList() []BlockedG {
+	if !DebugStacks {
+		var out []BlockedG
+		for _, g := range s.all {
+			b := BlockedG{Name: g.Name, Kind: g.Kind, Site: SiteLabel(g.site), Parked: g.parked, Note: g.Note, Func: SiteLabel(g.lastStmt)}
+			if g.parked {
+				b.Wait = "parked:" + SiteLabel(g.site)
+			} else {
+				b.Wait = "blocked-after:" + SiteLabel(g.site)
+			}
+			out = append(out, b)
+		}
+		sort.Slice(out, func(i, j int) bool { return out[i].Name < out[j].Name })
+		return out
+	}
+	buf := make([]byte, 4<<20)
+	n := runtime.Stack(buf, true)
+	type info struct {
+		wait   string
+		frames []string
+	}
+	byID := map[int64]*info{}
+	var cur *info
+	for _, line := range strings.Split(string(buf[:n]), "\n") {
+		if strings.HasPrefix(line, "goroutine ") {
+			rest := line[len("goroutine "):]
+			var id int64
+			i := 0
+			for ; i < len(rest) && rest[i] >= '0' && rest[i] <= '9'; i++ {
+				id = id*10 + int64(rest[i]-'0')
+			}
+			cur = &info{}
+			byID[id] = cur
+			if a := strings.Index(rest, "["); a >= 0 {
+				w := rest[a+1:]
+				if b := strings.IndexAny(w, ",]"); b >= 0 {
+					w = w[:b]
+				}
+				w = strings.TrimSuffix(w, " (durable)")
+				cur.wait = w
+			}
+			continue
+		}
+		if cur == nil || line == "" || strings.HasPrefix(line, "\t") {
+			continue
+		}
+		fn := line
+		if i := strings.LastIndex(fn, "("); i > 0 {
+			fn = fn[:i]
+		}
+		if strings.HasPrefix(fn, "created by ") {
+			continue
+		}
+		if !strings.Contains(fn, "go.flow.arcalot.io/pluginsdk/") || strings.Contains(fn, "/zzsimrt") {
+			continue
+		}
+		fn = strings.TrimPrefix(fn, "go.flow.arcalot.io/pluginsdk/")
+		if len(cur.frames) < 6 {
+			cur.frames = append(cur.frames, fn)
+		}
+	}
+	var out []BlockedG
+	for _, g := range s.all {
+		b := BlockedG{Name: g.Name, Kind: g.Kind, Site: SiteLabel(g.site), Parked: g.parked, Note: g.Note}
+		if in := byID[g.goid]; in != nil {
+			b.Wait = in.wait
+			b.Frames = in.frames
+			if len(in.frames) > 0 {
+				b.Func = in.frames[0]
+			}
+		}
+		if g.parked {
+			b.Wait = "parked:" + SiteLabel(g.site)
+		}
+		out = append(out, b)
+	}
+	sort.Slice(out, func(i, j int) bool { return out[i].Name < out[j].Name })
+	return out
+}
